@@ -265,7 +265,10 @@ func (rn *Runner) Snap() *Snapshot {
 }
 
 // View derives the generator's view of log l from a snapshot.
-func (rn *Runner) View(l *gen.Log, s *Snapshot) gen.View {
+func (rn *Runner) View(l *gen.Log, s *Snapshot) gen.View { return ViewOf(l, s) }
+
+// ViewOf derives the generator's view of log l from a snapshot.
+func ViewOf(l *gen.Log, s *Snapshot) gen.View {
 	raw := s.CP[l.ID]
 	if raw == nil {
 		return gen.View{}
